@@ -763,3 +763,45 @@ Proof.
   { rewrite Forall_forall. split; intros H s Hs; apply suite_ok_spec, H, Hs. }
   rewrite K. tauto.
 Qed.
+
+(* ---------- the fields of the test case besides the request travel unchanged ---------- *)
+Lemma rename_same_but_name cl sv p : same_but_name p (rename cl sv p).
+Proof. unfold same_but_name, rename; simpl. repeat split; reflexivity. Qed.
+
+(* every member of a gRPC-peer block is an applicable permutation under its marked name, and
+   nothing else about it differs - no hypothesis on the protocol numbers is needed for this half *)
+Theorem grpc_variant_is_original_but_name_proof : forall cl sv l q,
+  cl = true \/ sv = true -> In q (grpc_filter cl sv l) ->
+  exists p, In p l /\ p_name q = add_marker (p_name p) (p_simple p) cl sv /\ same_but_name p q.
+Proof.
+  intros cl sv l q H Hq. unfold grpc_filter in Hq.
+  assert (E : negb cl && negb sv = false) by (destruct cl, sv; try reflexivity; destruct H; discriminate).
+  rewrite E in Hq. apply in_map_iff in Hq. destruct Hq as (p & <- & Hp). apply filter_In in Hp.
+  exists p. split; [apply Hp|]. split; [reflexivity|apply rename_same_but_name].
+Qed.
+
+Theorem all_permutations_variants_proof : forall cl sv order q,
+  In q (all_permutations cl sv order) ->
+  In q order \/ exists p, In p order /\ same_but_name p q /\
+     exists cl' sv', (cl' = true \/ sv' = true) /\ p_name q = add_marker (p_name p) (p_simple p) cl' sv'.
+Proof.
+  intros cl sv order q Hq. unfold all_permutations in Hq. rewrite !in_app_iff in Hq.
+  destruct Hq as [Hq|[Hq|[Hq|Hq]]]; [left; exact Hq| | |].
+  - destruct cl; [|destruct Hq]. right.
+    destruct (grpc_variant_is_original_but_name_proof true false order q (or_introl eq_refl) Hq) as (p & Hp & Hn & Hs).
+    exists p. repeat split; try assumption; try apply Hs. exists true, false. split; [left; reflexivity|exact Hn].
+  - destruct sv; [|destruct Hq]. right.
+    destruct (grpc_variant_is_original_but_name_proof false true order q (or_intror eq_refl) Hq) as (p & Hp & Hn & Hs).
+    exists p. repeat split; try assumption; try apply Hs. exists false, true. split; [right; reflexivity|exact Hn].
+  - destruct cl, sv; simpl in Hq; try destruct Hq. right.
+    destruct (grpc_variant_is_original_but_name_proof true true order q (or_introl eq_refl) Hq) as (p & Hp & Hn & Hs).
+    exists p. repeat split; try assumption; try apply Hs. exists true, true. split; [left; reflexivity|exact Hn].
+Qed.
+
+(* a permutation of the library carries the other fields of the test case it was expanded from *)
+Theorem permutation_carries_extras_proof : forall ss cs mode L, new_library ss cs mode = Ok L ->
+  forall p, In p L -> exists s t, In s ss /\ In t (s_cases s) /\ p_simple p = t_name t /\ p_extras p = t_extras t.
+Proof.
+  intros ss cs mode L HL p Hp. apply (perm_iff_proof ss cs mode L HL) in Hp.
+  destruct Hp as (s & t & c & Hs & Ht & _ & _ & _ & _ & ->). exists s, t. repeat split; assumption.
+Qed.
